@@ -284,7 +284,7 @@ def pt_contour(draw, pt, ids, allow=("l", "c", "q", "super", "short", "noon", "s
         if draw(st.integers(0, 3)) == 0 and len(out) > 1:
             # last on-curve coincides with an earlier on-curve (duplicate closing point)
             first_on = next(p for p in out if p[2] is not None)
-            out[-1] = out[-1][:0] + [first_on[0], first_on[1]] + out[-1][2:]
+            out[-1] = [first_on[0], first_on[1]] + out[-1][2:]
         r = draw(st.integers(0, len(out) - 1))
         out = out[r:] + out[:r]
     return out
